@@ -215,6 +215,21 @@ def d2(chk, prog):
                 ok = ok and same(got["depth"], wd)
         tb.cell(ok, dict(weights=wkind, rows_out=len(out), got={k: repr(v) for k, v in got.items()},
                          want="start=s0 end=e2 gene=G probes=len log2=wavg(log2;weight)|mean weight=sum depth=wavg(depth;weight)"))
+    # end to end with the real by_gene on literal bins: exactly the named genes are reported -- unnamed ('-', '.', 'CGH') and antitarget bins are no genes
+    tbl = Table(chk, "gene-summary", "group_by_genes on literal bins with '-', '.', 'CGH' and Antitarget bins between and inside genes: the genes reported, their span and bin count", fi.loc(), fi.qn + "::genes reported")
+    names = ["A", "A", "-", "B", ".", "B", "CGH", "Antitarget", "C", "-"]
+    for label, labels in (("default index", None), ("labels that are not positions", [3 * i + 7 for i in range(len(names))])):
+        W.reset()
+        rows = [dict(chromosome="chr1", start=10 * i, end=10 * i + 10, gene=nm, log2=Fr(i, 8), depth=Fr(i + 1), weight=Fr(1, 2)) for i, nm in enumerate(names)]
+        g = make_ga("CopyNumArray", rows, {"sample_id": "S"}, index="any", exact=True, labels=labels)
+        it = Interp(prog)
+        out = tbl.guard(lambda: list(it.run(fi.qn, [g, False])), label)
+        if out is None:
+            continue
+        got = [(r._d.get("gene"), int(T(r._d.get("start")).cval()), int(T(r._d.get("end")).cval()), r._d.get("probes")) for r in out]
+        want = [("A", 0, 20, 2), ("B", 30, 60, 3), ("C", 80, 90, 1)]
+        tbl.cell(got == want, dict(index=label, bin_names=names, got=got, want=want))
+    tbl.done("genemetrics reports something other than the named genes (an unnamed or antitarget stretch as a gene, or a gene without the bins between its first and last bin)")
     # skip_low: only the mean ignores null-coverage bins; coordinates, bin count, weight and depth are the gene's own
     W.reset()
     w = [Term.sym(f"w{i}", 0, INF, positive=True) for i in range(3)]
@@ -338,6 +353,19 @@ def d3(chk, prog):
             r = out[0]
             ok = r[0] == "G" and r[1] == "chr1" and same(r[2], ce) and same(r[3], t_sub(l1, l0)) and r[4] == left and r[5] == right
         tb.cell(ok, dict(segment_end=ce, next_segment_start=ce + gap, gene_starts=gst, gene_end=gend, min_probes=mp, same_chromosome=same_chrom, got=[repr(x) for x in out], want_reported=want))
+    # two genes whose spans overlap (the first gene's last bin is a long tile reaching over the second gene): every gene is examined for every boundary
+    two = {"chr1": [("G1", [10, 20, 30], 100), ("G2", [40, 50, 60], 70)]}
+    for ce, mp in itertools.product([15, 25, 35, 45, 55, 65, 85], [1, 2]):
+        W.reset()
+        it = Interp(prog)
+        l0, l1 = Term.sym("l0"), Term.sym("l1")
+        segs = [Row({"chromosome": "chr1", "start": 0, "end": ce, "log2": l0}), Row({"chromosome": "chr1", "start": ce, "end": 200, "log2": l1})]
+        out = tb.guard(lambda: it.run(fi.qn, [two, segs, mp]), f"two genes end={ce} min_probes={mp}")
+        if out is None:
+            continue
+        want = sorted(nm for nm, gs, ge in two["chr1"] if gs[0] < ce < ge and sum(s_ < ce for s_ in gs) >= mp and sum(s_ >= ce for s_ in gs) >= mp)
+        got = sorted(r[0] for r in out)
+        tb.cell(got == want, dict(segment_end=ce, genes={nm: (gs, ge) for nm, gs, ge in two["chr1"]}, min_probes=mp, got=got, want=want))
     tb.done("breaks lists a gene that has too few bins on one side of the boundary, or misses one that has enough")
     # do_genemetrics: min_probes filter is >=
     fg = prog.fn("cnvlib.reports.do_genemetrics")
